@@ -265,7 +265,7 @@ pub fn check_history(h: &Hist) -> Result<(bool, Vec<&'static str>), Failure> {
 }
 
 pub fn gen_case(t: &mut Tape) -> (Script, LifePlan) {
-    let life = LifePlan { oneshot: t.chance(1, 6), checks: 1 + t.choose(3), crash_at: None };
+    let life = LifePlan { oneshot: t.chance(1, 6), checks: 1 + t.choose(3), crash_at: None, wall_at_start: None };
     let mut script = gen_script(t, &profile());
     script.metrics_fail = false;
     if t.flag() {
@@ -293,7 +293,7 @@ pub fn case(t: &mut Tape, ctx: &CaseCtx) -> CaseResult {
     for k in 1..=n {
         let mut l1 = life;
         l1.crash_at = Some(k);
-        let h2 = run_history(script.clone(), &[l1, LifePlan { oneshot: false, checks: 1, crash_at: None }]);
+        let h2 = run_history(script.clone(), &[l1, LifePlan::new(false, 1, None)]);
         CRASH_RUNS.fetch_add(1, Ordering::Relaxed);
         // did the crash fall between a storage write and its commit?
         if let Some(c) = h2.log.iter().position(|o| matches!(o, Op::Crash { .. })) {
